@@ -19,12 +19,20 @@ def main():
     prop = meta["property"]
     n = os.path.basename(src)
     sid = f"{prop}-{n}"
+    if "/seed2/" in src:
+        sid = f"{prop}-b{n}"
+    elif "/seed3/" in src:
+        sid = f"{prop}-c{n}"
     demo_md = open(src + "/DEMO.md").read()
     m = re.search(r"-run\s+'?\"?([\w|^$()]+)'?\"?\s+(\./[\w/.]+)", demo_md)
     if not m:
         print("cannot parse DEMO.md run command"); return 2
     runpat, pkg = m.group(1), m.group(2).rstrip("/")
     tests = glob.glob(src + "/*_test.go")
+    nested = [t for t in glob.glob(src + "/**/*_test.go", recursive=True) if t not in tests]
+    def dest(t):
+        # demo files in the seed dir root belong to pkg; nested ones keep their relative directory
+        return os.path.join(wt, pkg, os.path.basename(t)) if t in tests else os.path.join(wt, os.path.relpath(t, src))
     wt = f"/tmp/confirm/{sid}"
     shutil.rmtree(wt, ignore_errors=True)
     sh(f"git -C /repo worktree prune")
@@ -32,8 +40,9 @@ def main():
     if rc: print(out); return 2
     res = {"scratch_worktree": wt, "base_commit": sh("git -C /repo rev-parse --short HEAD")[1].strip()}
     try:
-        for t in tests:
-            shutil.copy(t, os.path.join(wt, pkg, os.path.basename(t)))
+        for t in tests + nested:
+            os.makedirs(os.path.dirname(dest(t)), exist_ok=True)
+            shutil.copy(t, dest(t))
         demo_cmd = f"go test -vet=off -count=1 -run '{runpat}' {pkg}/"
         rc0, out0 = sh(demo_cmd, cwd=wt)
         res["demo_without_change"] = "pass" if rc0 == 0 else "FAIL"
@@ -43,16 +52,16 @@ def main():
         rc, out = sh("go build ./...", cwd=wt)
         res["builds"] = rc == 0
         # existing tests of touched packages (without the demo file)
-        for t in tests:
-            os.rename(os.path.join(wt, pkg, os.path.basename(t)), os.path.join(wt, pkg, os.path.basename(t)) + ".off")
+        for t in tests + nested:
+            os.rename(dest(t), dest(t) + ".off")
         touched = sorted({"./" + os.path.dirname(l[6:]) for l in open(src + "/patch.diff") if l.startswith("+++ b/")})
-        pk = " ".join(sorted(set(touched + [pkg])))
+        pk = " ".join(sorted(set(touched + ([pkg] if not nested else []))))
         rc, out = sh(f"go test -vet=off -count=1 {pk}", cwd=wt)
         fails = [l for l in out.splitlines() if l.startswith("--- FAIL") and not re.search(FLAKY, l)]
         res["existing_tests"] = "pass" if not fails and "[build failed]" not in out else "FAIL: " + "; ".join(fails)[:300]
         res["existing_tests_cmd"] = f"go test -vet=off -count=1 {pk}"
-        for t in tests:
-            os.rename(os.path.join(wt, pkg, os.path.basename(t)) + ".off", os.path.join(wt, pkg, os.path.basename(t)))
+        for t in tests + nested:
+            os.rename(dest(t) + ".off", dest(t))
         rc1, out1 = sh(demo_cmd, cwd=wt)
         res["demo_with_change"] = "fail" if rc1 != 0 else "PASS"
         res["demo_cmd"] = demo_cmd
@@ -81,10 +90,12 @@ def main():
         os.makedirs(dst, exist_ok=True)
         shutil.copy(src + "/patch.diff", dst)
         for t in tests: shutil.copy(t, dst + "/" + os.path.basename(t) + ".txt")
+        for t in nested: shutil.copy(t, dst + "/" + os.path.relpath(t, src).replace("/", "__") + ".txt")
         shutil.copy(src + "/DEMO.md", dst)
         meta_out = {"id": sid, "property": prop, "summary": meta.get("summary"), "site": meta.get("site"),
                     "needs_to_manifest": meta.get("needs_to_manifest"), "why_tests_pass": meta.get("why_tests_pass"),
                     "origin": "written by an independent sub-agent that saw only the property text and a scratch worktree",
+                    "round": 2 if "/seed2/" in src else (3 if "/seed3/" in src else 1),
                     "what_i_ran": res, "demo_files_note": "demo test files are stored with a .txt suffix so that they are never compiled from /verif; copy them (without .txt) to the package named in DEMO.md"}
         json.dump(meta_out, open(dst + "/meta.json", "w"), indent=1)
     return 0 if ok else 1
